@@ -209,6 +209,26 @@ pub fn is_canonical(a: &CscMatrix<f64>) -> bool {
 pub fn dot(a: &[f64], b: &[f64]) -> f64 {
     a.iter().zip(b).map(|(x, y)| x * y).sum()
 }
+/// dot product evaluated as if in twice the working precision (Ogita-Rump-Oishi Dot2: error-free
+/// two-product via fma and two-sum): the oracle's sign tests must not be decided by cancellation
+pub fn dot2(a: &[f64], b: &[f64]) -> f64 {
+    let (mut p, mut s) = (0.0f64, 0.0f64);
+    for (x, y) in a.iter().zip(b) {
+        let h = x * y;
+        let r = x.mul_add(*y, -h); // exact error of the product
+        let t = p + h;
+        let z = t - p;
+        let q = (p - (t - z)) + (h - z); // exact error of the sum
+        p = t;
+        s += q + r;
+    }
+    let out = p + s;
+    if out.is_finite() {
+        out
+    } else {
+        dot(a, b)
+    }
+}
 /// 2-norm that survives under- and overflow of the squares (the oracle must not lose what it judges)
 pub fn norm2(a: &[f64]) -> f64 {
     let s = dot(a, a);
